@@ -43,9 +43,9 @@ CLAIMED.update({
  'C20': dict(cat='proof', technique='SMT verification conditions over the reals for boxes/intervals + CBMC code contracts with loop invariants (bit-precise comparisons) for point-set extents',
    text='AABB from an interval reproduces it; AABB and OBB containment are exactly the stated closed tests; the enclosing AABB of an OBB contains every point of it and is tight (a corner touches each face); interval union is the componentwise hull (2-D and 3-D, all real inputs). Container min/max and PointSetPreconditioner::compute: the reported extrema bound every point (probe, any set size up to the model capacity) and are attained by a point - never the seed - so all-negative sets are handled; scale/translation proved as expressions.',
    note=TB_B + '; ' + TB_A + '; point sets of 1..32 finite points in the C model (property: up to 1000); mean is a floating accumulation (expression only)', ref='DESIGN.md 4 (C20)'),
- 'C11': dict(cat='proof', technique='CBMC code contracts (bit-precise copies) + SMT verification conditions (quadratic forms, SE(3) action on extracted operator*)',
-   text='Reductions keep exactly x, y, yaw / vx, vy, yaw rate and rows/columns (0,1,5) of the covariance for every double (NaN included); embed-then-reduce is the identity and symmetry is kept; the quadratic forms of reduced/embedded covariances agree (so PSD is preserved); the rigid transform of a pose acts as R p + T on the position, the identity is neutral for position and attitude (as a rotation), successive transforms compose on the position.',
-   note=TB_A + '; ' + TB_B + '; NOT covered: the uncertainty ellipse (Eigen::JacobiSVD) and composition of the attitude part (needs R(angles(M)) = M), exercised by the native replay only', ref='DESIGN.md 4 (C11)'),
+ 'C11': dict(cat='proof', technique='CBMC code contracts (bit-precise copies) + SMT verification conditions (quadratic forms, SE(3) action on extracted operator*, uncertainty ellipse under an assumed JacobiSVD contract)',
+   text='Reductions keep exactly x, y, yaw / vx, vy, yaw rate and rows/columns (0,1,5) of the covariance for every double (NaN included); embed-then-reduce is the identity and symmetry is kept; the quadratic forms of reduced/embedded covariances agree (so PSD is preserved); the rigid transform of a pose acts as R p + T on the position, the identity is neutral for position and attitude (as a rotation), successive transforms compose on the position; the uncertainty ellipse has major >= minor >= 0 and R diag(major^2, minor^2) R^T / sigma^2 reproduces the xy covariance (given the SVD contract).',
+   note=TB_A + '; ' + TB_B + '; Eigen::JacobiSVD of the 2x2 covariance enters by an assumed contract (C = U diag(s) U^T, U orthonormal, s0 >= s1 >= 0 for symmetric PSD C); NOT covered: composition of the attitude part (needs R(angles(M)) = M)', ref='DESIGN.md 4 (C11), 9'),
 })
 CLAIMED.update({
  'C14': dict(cat='proof', technique='CBMC code contracts with a loop invariant for the chain + SMT verification conditions for the Amanatides-Woo one-step geometric invariant',
